@@ -280,9 +280,16 @@ impl Chunk for MwmoChunk {
             return Ok(Self::new());
         }
 
-        // Read all data
-        let mut data = vec![0u8; size];
-        reader.read_exact(&mut data)?;
+        // Read all data. The buffer grows with the bytes actually read, so a bogus
+        // size in a truncated file cannot reserve memory up front.
+        let mut data = Vec::new();
+        reader.by_ref().take(size as u64).read_to_end(&mut data)?;
+        if data.len() != size {
+            return Err(Error::Io(std::io::Error::new(
+                std::io::ErrorKind::UnexpectedEof,
+                format!("MWMO chunk declares {size} bytes, found {}", data.len()),
+            )));
+        }
 
         // Split by null terminators
         let mut filenames = Vec::new();
@@ -409,7 +416,8 @@ impl Chunk for ModfChunk {
         }
 
         let count = size / 64;
-        let mut entries = Vec::with_capacity(count);
+        // Capacity hint only: the size has not been checked against the stream here
+        let mut entries = Vec::with_capacity(count.min(1024));
 
         for _ in 0..count {
             let mut buf = [0u8; 4];
